@@ -75,6 +75,36 @@ def exc_pair(run, F):
     for f in F.funcs:
         if not f.get('blocks'): continue
         acqs = [(b, i, e) for b, i, e in events(f) if e['k'] == 'call' and e['callee'].get('name') in ('allocate', 'try_record_start')]
+        # pure counter increments inside a try block: released by the matching fetch_sub in the handler
+        incs = [(b, i, e) for b, i, e in events(f) if e['k'] == 'call' and e['callee'].get('name') == 'fetch_add' and f.get('try')
+                and any(tr['try_begin'] <= (e.get('line') or 0) <= tr['try_end'] for tr in f['try'])]
+        if incs and not acqs:
+            G = Graph(f)
+            used = set()
+            for n2, e2 in G.ev.items():
+                if e2.get('k') == 'term' and e2.get('cond') is not None:
+                    from ..facts import expr_eids
+                    used.update(expr_eids(e2['cond']))
+                if e2.get('k') == 'decl':
+                    for v in e2['vars']:
+                        from ..facts import expr_eids
+                        used.update(expr_eids(v.get('init')))
+            for b, i, e in incs:
+                if e.get('eid') in used: continue          # an election, not a plain count
+                node = (b['id'], i); member = last_field(e['callee'].get('base', ''))
+                tr = max([t for t in f['try'] if t['try_begin'] <= e['line'] <= t['try_end']], key=lambda t: t['try_begin'])
+                thr = [x for x in G.reach([m for m, lab in G.succ.get(node, []) if lab != 'exc'], skip_exc=True)
+                       if G.ev[x].get('k') in ('call', 'construct') and tr['try_begin'] <= (G.ev[x].get('line') or 0) <= tr['try_end']
+                       and (G.ev[x].get('k') == 'construct' and 'thread' in (G.ev[x].get('type') or '') or (G.ev[x].get('k') == 'call' and may_throw(G.ev[x]) and G.ev[x]['callee'].get('name') not in NOTHROW_EXTRA))]
+                run.inst(site(f, e['line']), 'increment of %s inside try followed by %d may-throw step(s)' % (member, len(thr)), nontrivial=bool(thr), key=(f['qname'], member, 'inc'))
+                if thr:
+                    handled = any(ev.get('k') == 'call' and ev['callee'].get('name') == 'fetch_sub' and last_field(ev['callee'].get('base', '')) == member
+                                  and any(h['begin'] <= (ev.get('line') or 0) <= h['end'] for h in tr['handlers']) for ev in G.ev.values())
+                    if not handled:
+                        x = thr[0]
+                        run.violation(f['qname'], 'unprotected-throw-after-increment:' + member, '%s:%s' % (f['file'], G.line(x)),
+                                      '%s is incremented and a later step in the same try block may throw, but the handler does not decrement it: after such a failure the count stays raised for work that never started (whoever waits for it to reach zero waits forever)' % member)
+            continue
         if not acqs: continue
         if f['name'] in ('allocate', 'try_record_start'): continue      # the primitives themselves / forwarding wrappers
         G = Graph(f)
